@@ -115,6 +115,56 @@ def _link_replaces_existing(ex, st, post, result):
            'the address returns the latest store')
 
 
+def _single_colour_target(ex, st, post, result):
+    """the link created at the tile location points at a file that holds the tile: the shared single-colour file, written
+    first if it did not exist"""
+    import z3
+    from pyvc.values import eq
+    tile, loc, color = post.env['tile'], post.env['tile_loc'], post.env['color']
+    sl = [e for i, e in T.evs(st, '_single_color_tile_location', 'FileCache._single_color_tile_location')]
+    stores = [(i, e) for i, e in T.evs(st, '_store', 'FileCache._store')]
+    links = [(i, e) for i, e in T.evs(st, 'link', 'symlink')]
+    if len(sl) != 1:
+        yield ('single_colour_file_is_the_link_target', z3.BoolVal(False), 'the shared file location is computed once')
+        return
+    real = sl[0].result
+    a0 = [x for x in sl[0].args if x is not post.env['self']]
+    ok_loc = len(a0) >= 1 and a0[0] is color and 'create_dir' in sl[0].kwargs
+    ex_real = [(i, e) for i, e in T.evs(st, 'exists') if e.args and e.args[0] is real]
+    g = z3.BoolVal(bool(ok_loc and len(ex_real) == 1 and len(stores) <= 1))
+    if ok_loc and len(ex_real) == 1:
+        there = ex.truth(st, ex_real[0][1].result)
+        # written exactly when missing, before the link is made, with this tile's data
+        g = z3.And(g, z3.Not(there) == z3.BoolVal(len(stores) == 1), ex.truth(st, sl[0].kwargs['create_dir']))
+        for i, e in stores:
+            a = [x for x in e.args if x is not post.env['self']]
+            g = z3.And(g, z3.BoolVal(len(a) == 2 and a[0] is tile and a[1] is real and ex_real[0][0] < i
+                                     and all(i < j for j, l in links)))
+    yield ('single_colour_file_written_when_missing', g,
+           'the shared single-colour file is written (self._store(tile, that file)) exactly when it does not exist yet, before '
+           'anything is linked to it')
+    g2 = z3.BoolVal(len(links) == 1)
+    for i, l in links:
+        if l.name == 'link':
+            g2 = z3.And(g2, z3.BoolVal(l.args[0] is real))
+        else:
+            rp = [e for j, e in T.evs(st, 'relpath')]
+            def is_dirname_of_loc(v):
+                t = getattr(v, 't', None)
+                return t is not None and z3.is_app(t) and t.decl().name() == 'path_dirname' and t.arg(0).eq(loc.t)
+            okr = len(rp) == 1 and len(rp[0].args) == 2 and rp[0].args[0] is real and is_dirname_of_loc(rp[0].args[1]) \
+                and l.args[0] is rp[0].result
+            g2 = z3.And(g2, z3.BoolVal(bool(okr)))
+        h = st.heap[post.env['self'].ref]
+        from pyvc.values import opaque_eq_str
+        hard = opaque_eq_str(h['link_single_color_images'].t, z3.StringVal('hardlink')) if hasattr(h['link_single_color_images'], 't') else None
+        if hard is not None:
+            g2 = z3.And(g2, hard == z3.BoolVal(l.name == 'link'))
+    yield ('single_colour_file_is_the_link_target', g2,
+           'exactly one link is made at the tile location: a hard link to the shared file, or a symlink whose target is the '
+           'shared file relative to the directory of the tile (relpath(shared, dirname(tile location)))')
+
+
 contract(F + 'FileCache._store_single_color_tile', props=['C05', 'C06'],
          types=dict(tile='opaque', tile_loc='str', color='opaque'), returns='none', default_callee='opaque',
          opaque_spec={'exists': {'returns': 'bool', 'pure': True}, 'islink': {'returns': 'bool', 'pure': True},
@@ -122,7 +172,7 @@ contract(F + 'FileCache._store_single_color_tile', props=['C05', 'C06'],
                       'link': {'raises': ['OSError']}, 'symlink': {'raises': ['OSError']}, 'unlink': {'raises': ['OSError']},
                       'relpath': {'returns': 'str', 'pure': True}, 'dirname': {'returns': 'str', 'pure': True}},
          opaque=['_store', '_single_color_tile_location', 'dirname'],
-         raises={'OSError': True}, trace=[_link_replaces_existing])
+         raises={'OSError': True}, trace=[_link_replaces_existing, _single_colour_target])
 
 
 # ---- legend cache and seed progress file: the file is only ever replaced through write_atomic ------------------------------
